@@ -125,7 +125,7 @@ def main(repo, out):
         if m0 and num(m0.group(1), 'timeline start') == 0 and \
            'Some(number)=>number.valueasusize,None=>{next_auto_number+=1;next_auto_number-1},' in nb and \
            'Some(number)ifnumber<0=>{' in nb and 'ifnum_unique_timeline_indices!=expected_unique_timeline_countasusize{' in nb and \
-           re.search(r'fortimeline_indexin0\.\.expected_unique_timeline_count\{matchast_spans_by_timeline\.get\(&timeline_index\)\.map_or\(0,\|x\|x\.len\(\)\)\{0=>\{\},1=>\{\},_=>\{', nb):
+           re.search(r'for(?:timeline_indexin0\.\.expected_unique_timeline_count|&timeline_indexinast_spans_by_timeline\.keys\(\))\{matchast_spans_by_timeline\.get\(&timeline_index\)\.map_or\(0,\|x\|x\.len\(\)\)\{0=>\{\},1=>\{\},_=>\{', nb):
             tl = 'TlAutoCountsAutos'
     if tl == 'TlUnrec': note('unrecognised get_and_validate_timeline_indices')
 
